@@ -329,7 +329,7 @@ func (m *vsModel) expectList(terms []vsTerm, limit int) []vsListEntry {
 var vsKeys = []string{"goos", "goarch", "pkg", "commit", "note", "k-1", "é", "a.b", "cpu"}
 var vsVals = []string{"linux", "darwin", "amd64", "1", "2", "10", "9", "x y", `q"uote`, `back\slash`, "a<b", "c>d", "k:v", "é世", "Intel(R) Core(TM)", "tab\there", "-", "zz", `"`, `\`, `a\"b c`, "fast\u00a0path", "a\vb", "x\u2003y", "f\ff", "\u00a0wide", "\u2003x", "\vlead", "it's", "rock'n'roll", "'", "'q'", "a=b", "100%", "semi;colon", "amp&ersand", "plus+sign", "#hash", "q?mark"}
 var vsNameBases = []string{"Encode", "Decode", "Sort", "Fib", "X"}
-var vsSubs = []string{"size=1", "size=10", "align=0", "poly=IEEE", "plain", "8", "fmt=json"}
+var vsSubs = []string{"size=1", "size=10", "align=0", "poly=IEEE", "plain", "8", "fmt=json", "expr=a=b", "pad=YWI=", "eq=="}
 var vsServerKeys = []string{"upload", "upload-part", "upload-time", "upload-file", "by"}
 
 func vsGenName(T *sim.Tape) string {
@@ -437,7 +437,8 @@ func vsGenFile(T *sim.Tape, o vsGenOpts) string {
 			if T.Intn(3, "newname") == 0 {
 				name = vsGenName(T)
 			}
-			bl := fmt.Sprintf("Benchmark%s%s%d\t%d ns/op\n", name, []string{" ", "\t", "  "}[T.Intn(3, "bsep")], 1+T.Intn(1000, "iters"), 1+T.Intn(100000, "ns"))
+			bl := fmt.Sprintf("Benchmark%s%s%d\t%d ns/op%s\n", name, []string{" ", "\t", "  "}[T.Intn(3, "bsep")], 1+T.Intn(1000, "iters"), 1+T.Intn(100000, "ns"),
+				[]string{"", "", "", "", "", "", "", " ", "\t", "  \t"}[T.Intn(10, "line-padding")]) // go test pads columns: trailing blanks belong to the line
 			b.WriteString(bl)
 			benchLines = append(benchLines, bl)
 			nbench++
